@@ -57,6 +57,8 @@ SpecListOf == [
   y125   |-> << <<"Y", <<5, 4>>, 1>> >>,
   x2y5   |-> << <<"X", <<2, 1>>, 1>>, <<"Y", <<5, 1>>, 1>> >>,
   x20p10 |-> << <<"X", <<20, 1>>, 10>> >>,
+  x12    |-> << <<"X", <<6, 5>>, 1>> >>,                          \* 1.2 and 8.5: the cross rates do not terminate
+  y85    |-> << <<"Y", <<17, 2>>, 1>> >>,
   xx     |-> << <<"X", <<2, 1>>, 1>>, <<"X", <<4, 1>>, 1>> >>,
   xbad0  |-> << <<"X", <<0, 1>>, 1>> >>,
   x4ybad |-> << <<"X", <<4, 1>>, 1>>, <<"Y", <<-1, 1>>, 1>> >>,
